@@ -49,6 +49,8 @@ class Report:
 
     def viol(self, rule, key, site, msg, fn=None, detail=None):
         """An obligation that could not be discharged."""
+        if any(v["key"] == key for v in self.violations):
+            return
         self.obligations.append({"rule": rule, "key": key, "site": site,
                                  "discharged_by": None, "msg": msg})
         self.violations.append({"rule": rule, "key": key, "site": site, "msg": msg,
